@@ -8,7 +8,7 @@ use lc3_ensemble::sim::device::{BufferedDisplay, BufferedKeyboard, TimerDevice};
 use lc3_ensemble::sim::mem::MachineInitStrategy;
 use lc3_ensemble::sim::{SimFlags, Simulator};
 
-const PROGRAMS: [&str; 6] = [
+const PROGRAMS: [&str; 7] = [
     // observes the machine fill: uninitialized registers and memory flow into results
     ".orig x3000\nADD R0,R1,R2\nLDR R3,R4,#0\nST R0, X\nLD R5, Y\nADD R5,R5,R3\nNOT R6,R7\nSTR R5,R6,#0\nBRn A\nADD R0,R0,#1\nA LD R1, FAR\nHALT\nX .blkw 1\nY .blkw 1\nFAR .fill x1234\n.end",
     ".orig x3000\nAND R0,R0,#0\nL ADD R0,R0,#1\nBRnzp L\n.end",
@@ -17,6 +17,8 @@ const PROGRAMS: [&str; 6] = [
     ".orig x3000\nLD R6, SP\nL ADD R6,R6,#-1\nSTR R6,R6,#0\nLDR R1,R6,#0\nADD R2,R2,R1\nBRnzp L\nSP .fill x8000\n.end",
     // reads I/O addresses that nothing answers (unmapped ports, KBDR/KBSR possibly with nothing queued) and the device registers, with privilege checks off
     ".orig x3000\nL LDI R0, P1\nLDI R1, P2\nLDI R2, P3\nLDI R3, P4\nLDI R4, P5\nADD R5,R0,R1\nADD R5,R5,R2\nADD R5,R5,R3\nST R5, ACC\nSTI R4, P2\nBRnzp L\nP1 .fill xFE10\nP2 .fill xFE20\nP3 .fill xFE02\nP4 .fill xFE00\nP5 .fill xFFFF\nACC .blkw 1\n.end",
+    // privilege checks off: an RTI executed in user mode before any trap or interrupt was taken, popping a user-mode PSR; then the stack pointer is observed
+    ".orig x3000\nLD R6, SP\nRTI\nSP .fill STK\nSTK .fill NEXT\n.fill x8002\nNEXT ST R6, O1\nADD R0,R6,#0\nLEA R1, S\nADD R0,R0,R1\nL ADD R2,R2,#1\nST R2, O2\nBRnzp L\nO1 .blkw 1\nO2 .blkw 1\nS .fill 0\n.end",
 ];
 const HANDLER: &str = ".orig x1F00\nADD R6,R6,#-1\nSTR R0,R6,#0\nLD R0, C\nADD R0,R0,#1\nST R0, C\nLDR R0,R6,#0\nADD R6,R6,#1\nRTI\nC .fill 0\n.end";
 
@@ -30,7 +32,7 @@ fn strategies(thorough: bool) -> Vec<MachineInitStrategy> {
 struct Cfg { strat: MachineInitStrategy, range: u8, tseed: u64, prog: usize, kb: u8, flags: u8, /** scale: 50000 steps (tens of thousands of timer intervals drawn) instead of the usual horizon */ long: bool }
 
 fn make(c: &Cfg) -> (Simulator, BufferedDisplay) {
-    let mut sim = Simulator::new(SimFlags { machine_init: c.strat, use_real_traps: c.flags & 1 == 1, strict: false, debug_frames: c.flags & 2 == 2, ignore_privilege: c.prog == 5 });
+    let mut sim = Simulator::new(SimFlags { machine_init: c.strat, use_real_traps: c.flags & 1 == 1, strict: false, debug_frames: c.flags & 2 == 2, ignore_privilege: c.prog >= 5 });
     let p = assemble(parse_ast(PROGRAMS[c.prog]).unwrap()).unwrap();
     let h = assemble(parse_ast(HANDLER).unwrap()).unwrap();
     sim.load_obj_file(&p).unwrap(); sim.load_obj_file(&h).unwrap();
@@ -101,7 +103,7 @@ fn check_pair(c: &Cfg, steps: usize, what: &str, rep: u32) -> Result<u64, (Strin
 }
 fn cfgs(thorough: bool) -> Vec<Cfg> {
     let mut v = vec![];
-    for strat in strategies(thorough) { for range in 0..5u8 { for tseed in if thorough { vec![5u64, 9, 0, u64::MAX] } else { vec![0u64, 9] } { for prog in 0..6 { for kb in 0..if thorough { 3u8 } else { 2 } { for flags in if thorough { vec![0u8, 1, 2, 3] } else { vec![0u8, 3] } {
+    for strat in strategies(thorough) { for range in 0..5u8 { for tseed in if thorough { vec![5u64, 9, 0, u64::MAX] } else { vec![0u64, 9] } { for prog in 0..7 { for kb in 0..if thorough { 3u8 } else { 2 } { for flags in if thorough { vec![0u8, 1, 2, 3] } else { vec![0u8, 3] } {
         v.push(Cfg { strat, range, tseed, prog, kb, flags, long: false });
     } } } } } }
     for (range, tseed) in [(2u8, 0u64), (1, 9), (2, u64::MAX)] { v.push(Cfg { strat: MachineInitStrategy::Seeded { seed: 7 }, range, tseed, prog: 1, kb: 0, flags: 0, long: true }); }
